@@ -10,10 +10,6 @@ Proof. vm_compute. lia. Qed.
 
 (* well-formed builder: empty and unallocated, or size < capacity (the NUL slot exists), capacity at least the
    initial one, and every byte from [size] on is zero (in particular the NUL slot) *)
-Definition sb_wf (b : sb) : Prop :=
-  (sbdata b = [] /\ sbsize b = 0) \/
-  (sbsize b < length (sbdata b) /\ SB_INIT_CAP_n <= length (sbdata b) /\
-   forall i, sbsize b <= i -> i < length (sbdata b) -> nth_error (sbdata b) i = Some 0%Z).
 
 Ltac sb_cases W := unfold sb_wf in W; cbn [sbdata sbsize] in W; destruct W as [[Wd Ws]|(W1 & W2 & W3)]; cbn [sbdata sbsize] in *; [subst|].
 
@@ -86,11 +82,6 @@ Proof.
   exists k. rewrite app_length, repeat_length. auto.
 Qed.
 
-Definition sb_op_ok (o : bop) : Prop :=
-  match o with
-  | BPwc n xs => length xs <= n          (* at most the n bytes asked for are written into the span *)
-  | _ => True
-  end.
 
 Lemma sb_write_ok : forall xs b, sb_wf b ->
   exists b', sb_write xs b = Ok b' /\ sb_wf b' /\ sb_view b' = sb_view b ++ xs.
@@ -119,11 +110,6 @@ Qed.
 
 (* the protocol of prepare/commit, in the state where it is used: the client writes no more bytes than the span
    that prepare(n) actually returned holds (that span has capacity - size - 1 >= n bytes) *)
-Definition sb_op_ok_at (b : sb) (o : bop) : Prop :=
-  match o with
-  | BPwc n xs => forall p, sb_prepare n b = Ok p -> length xs <= snd p
-  | _ => True
-  end.
 
 Theorem sb_step_refines_at : forall o b, sb_wf b -> sb_op_ok_at b o ->
   match by_step o (sb_view b) with
@@ -244,16 +230,6 @@ Theorem sb_step_refines : forall o b, sb_wf b -> sb_op_ok o ->
 Proof. intros o b W OK. apply sb_step_refines_at; [assumption|apply sb_op_ok_static; assumption]. Qed.
 
 
-Fixpoint sb_run (ops : list bop) (b : sb) : res (sb * list bret) :=
-  match ops with
-  | [] => Ok (b, [])
-  | o :: tl => p <- sb_step o b ;; q <- sb_run tl (fst p) ;; Ok (fst q, snd p :: snd q)
-  end.
-Fixpoint by_run (ops : list bop) (l : list Z) : res (list Z * list bret) :=
-  match ops with
-  | [] => Ok (l, [])
-  | o :: tl => p <- by_step o l ;; q <- by_run tl (fst p) ;; Ok (fst q, snd p :: snd q)
-  end.
 
 Theorem sb_run_refines : forall ops b, sb_wf b -> Forall sb_op_ok ops ->
   match by_run ops (sb_view b) with
@@ -341,7 +317,6 @@ Qed.
    outside the window with 'index out of range', every accepted access reads a cell INSIDE the window (never
    TrapMem), and the span returned by sub is again inside the storage, inside the parent window, and views the
    expected sub-list - so the statement composes through nested sub-spans. *)
-Definition sp_wf {T} (mem : list T) (s : spanw) : Prop := sp_off s + sp_size s <= length mem.
 
 Lemma sp_view_len : forall T (mem : list T) s, sp_wf mem s -> length (sp_view T mem s) = sp_size s.
 Proof. intros T mem s W. unfold sp_view, sp_wf in *. rewrite firstn_length, skipn_length. lia. Qed.
